@@ -2,7 +2,7 @@
 import os
 from vf.core import *
 from props import sessb
-US = ['main.0:8', 'is_hdr.0:10', 'hidx.0:10', 'midx.0:10', 'x_memcmp.0:8', 'vf_copy.0:15', 'x_strlen.0:16', 'x__ZN4Poco3Net12StreamSocket9sendBytesEPKvii.0:14']
+US = ['vf_ti_match.0:200', '__vf_landing.0:8', 'main.0:8', 'is_hdr.0:10', 'hidx.0:10', 'midx.0:10', 'x_memcmp.0:8', 'vf_copy.0:15', 'x_strlen.0:16', 'x__ZN4Poco3Net12StreamSocket9sendBytesEPKvii.0:14']
 B_STATE = 'pre-state (_next_send_seq, _next_receive_seq) = (n, r) arbitrary in 1..2^32-16; always_seqnum_assign symbolic; encodings 2..4 symbolic non-NUL bytes'
 
 def run(ctx):
@@ -18,9 +18,14 @@ def run(ctx):
     for j in (2, 3):
         H('C16_batch_j%d' % j, 'C16_send.c', ['OP=2', 'J=3', 'NMSG=3', 'JFIX=%d' % j, 'NEW_ONLY'], 'Session::send_batch of %d new messages, inductive step' % j,
           'batch of %d new messages, kinds symbolic, destroy symbolic' % j)
-    H('C16_first_send', 'C16_send.c', ['OP=0', 'J=1', 'NMSG=1', 'STALE_CTRL', 'NEW_ONLY'], 'first send of a new message over an arbitrary (stale or absent) control record', 'one new message; control record arbitrary')
+    H('C16_first_send', 'C16_send.c', ['OP=0', 'J=1', 'NMSG=1', 'STALE_CTRL', 'NEW_ONLY'], 'first send of a new message over an arbitrary (stale or absent) control record', 'one new message; control record arbitrary', tier='thorough')
     H('C16_recover', 'C16_recover.c', [], 'recover_seqnums / update_persist_seqnums: recovered record becomes the session numbers and the first message carries the recovered number',
       'control record (a, b) arbitrary or absent; one new message afterwards', fun=sessb.FUN_SEND)
+    FUNP = ['FIX8::Session::process', 'Session::handle_heartbeat', 'Session::handle_admin', 'Session::activation_check', 'Session::handle_outbound_reject', 'Session::generate_reject',
+            'catch dispatch of process() through the typeinfo ancestry table'] + sessb.FUN_SEND
+    pb = 'inbound message abstract (Message::factory cut): Heartbeat or application message, or a decoding failure that does not force a logout; enforce := accepted (C19)'
+    H('C16_process_reject', 'C16_process.c', ['FAIL'], 'Session::process of a message that fails decoding (Reject sent, receive number advanced): control record afterwards', pb, fun=FUNP)
+    H('C16_process_ok', 'C16_process.c', [], 'Session::process of a Heartbeat / application message: control record afterwards', pb, fun=FUNP, tier='thorough')
     # thorough: remaining batch sizes, batches containing retransmissions, no persister
     for j in (0, 1):
         H('C16_batch_j%d' % j, 'C16_send.c', ['OP=2', 'J=3', 'NMSG=3', 'JFIX=%d' % j, 'NEW_ONLY'], 'send_batch of %d messages' % j, 'batch of %d' % j, tier='thorough')
@@ -31,8 +36,7 @@ def run(ctx):
     ctx.assumptions += ['operator new never fails', 'the socket accepts every byte written (no EAGAIN / reset)', 'single caller (concurrent senders: C25)',
                         'process model pm_thread (pipelined writer thread: C25/C30)',
                         'consecutive-numbering clause applies to sends without explicit custom_seqnum/no_increment override (caller-chosen numbers); the control-record clause applies to every send',
-                        'the "after each processed inbound message" clause is checked at Session::update_persist_seqnums (called at the end of the normal path of Session::process); '
-                        'the reject path of process() (increments the receive number without writing the record) is reported in tools/reports/C16.md']
+                        'the "after each processed inbound message" clause: one real Session::process call over an abstract inbound message (normal path and the reject path), inbound sequence/CompID checks accepted (C19)']
     ctx.solve(jobs=4)
     ctx.handle_failures(replay, kf)
     announce_known(ctx, kf, replay)
@@ -42,4 +46,5 @@ def replay(ctx, cx, h=None):
     c = cx.get('cx', cx)
     if 'cx_rec_valid' in c:      # C16_recover scenario: recovered record, then one new message
         return False, 'recover scenario has no native driver (no counterexample expected)'
+    if 'cx_fail' in c: return sessb.replay_process(ctx, cx)
     return sessb.replay_send(ctx, cx, 1)
